@@ -14,7 +14,7 @@ RULE = ("Blocked leg (CPython 3.9-3.12): Hypothesis-generated thread bodies of c
         "per frame (single and multi-item, inside try/finally), blocked on an Event at the innermost level; oracle = shadow call "
         "log: harness frames of extract(thread) equal it outermost first with contexts equal to each frame's managers, all "
         "frames equal the thread's f_back chain, threading internals hidden; unstarted / finished threads give no frames and no "
-        "error. Racing leg (3.11, 3.12; guarded yield points): three scripted target threads (nested and multi-item with "
+        "error. Racing leg (3.11, 3.12; guarded yield points): three scripted target threads plus Hypothesis-generated scripts (with / for / try-finally over gates) (nested and multi-item with "
         "blocks, a loop re-entering the same with at the same instruction position with different managers, try/finally, a "
         "generator-owned frame) whose every step ends at a gate; the inspector calls extract(thread), extract_since(frame), "
         "lowlevel.contexts_active_in_frame(frame) or inspect_frame(frame); schedules <gates passed before the call, dynamic index "
@@ -41,6 +41,31 @@ APIS = ["thread", "ctx", "since", "inspect"]
 
 def bodies():
     return st.lists(st.integers(0, 3), min_size=1, max_size=6)
+
+
+def scripts():
+    """generated racing scripts: with (1-2 items) / for / try-finally over gates, nesting <= 3"""
+    gate = st.just({"t": "gate"})
+
+    def ext(ch):
+        blk = st.lists(ch, min_size=1, max_size=3)
+        return st.one_of(
+            st.fixed_dictionaries({"t": st.just("with"), "n": st.sampled_from([1, 1, 2]), "body": blk}),
+            st.fixed_dictionaries({"t": st.just("with"), "n": st.sampled_from([1, 2]), "body": blk}),
+            st.fixed_dictionaries({"t": st.just("for"), "body": blk}),
+            st.fixed_dictionaries({"t": st.just("try"), "body": blk, "final": st.lists(ch, min_size=1, max_size=1)}))
+    stmt = st.recursive(gate, ext, max_leaves=6)
+    return st.fixed_dictionaries({
+        "script": st.lists(stmt, min_size=1, max_size=3),
+        "api": st.sampled_from(APIS),
+        "nadv": st.integers(0, 6),
+        "ks": st.lists(st.sampled_from([1, 2, 3, 5, 9]), min_size=1, max_size=2, unique=True),
+    })
+
+
+def check_generated(ws, case, out):
+    v = check_cells(ws, [[case["script"], case["api"], case["nadv"]]], case["ks"], out)
+    return v
 
 
 def check_blocked(ws, interps, levels, out):
@@ -75,8 +100,9 @@ def check_cells(ws, cells, ks, out):
             s = res["stats"]
             for k, v in s.items():
                 out.extra["race." + k] = out.extra.get("race." + k, 0) + v
+            sname = cell[0] if isinstance(cell[0], str) else "generated"
             out.note_case({"cell": cell, "interp": interp}, s["moved"] > 0,
-                          classes=["race", "race.script." + cell[0], "race.api." + cell[1]], n_eval=s["schedules"])
+                          classes=["race", "race.script." + sname, "race.api." + cell[1]], n_eval=s["schedules"])
             if res["obs"]:
                 viols.append({"desc": "race on %s: %r" % (interp, res["obs"][0]), "interp": interp, "cell": cell,
                               "obs": res["obs"]})
@@ -93,6 +119,13 @@ def shard(arg):
             out.violation(v["desc"], {"levels": fail["case"]}, v["interp"], flaky=fail["flaky"])
         for v in check_cells(ws, arg["cells"], arg["ks"], out):
             out.violation(v["desc"], {"cell": v["cell"], "ks": arg["ks"]}, v["interp"], obs=v.get("obs"))
+        if not out.violations and arg.get("n_gen"):
+            fail = hyp_search(scripts(), lambda c: check_generated(ws, c, out), seed=arg["seed"] + 3,
+                              max_examples=arg["n_gen"], shrink=arg["shrink"])
+            if fail:
+                v = fail["violations"][0]
+                out.violation(v["desc"], {"cell": [fail["case"]["script"], fail["case"]["api"], fail["case"]["nadv"]],
+                                          "ks": fail["case"]["ks"]}, v["interp"], obs=v.get("obs"), flaky=fail["flaky"])
         if arg.get("stress"):
             for interp in RACE_INTERPS:
                 try:
@@ -123,7 +156,8 @@ def run(ctx):
     else:
         ks = [1, 2, 3, 4, 5, 6, 8, 12]
     args = [{"seed": ctx.shard_seed(i), "n": ctx.pick(96, 4800) // nshards, "shrink": not ctx.quick,
-             "cells": cells[i::nshards], "ks": ks, "stress": ctx.pick(500, 40000) if i == 0 else 0}
+             "cells": cells[i::nshards], "ks": ks, "stress": ctx.pick(500, 40000) if i == 0 else 0,
+             "n_gen": ctx.pick(72, 4800) // nshards}
             for i in range(nshards)]
     out = run_shards("checks.c07", "shard", args)
     out.extra["interpreters_blocked_leg"] = ALL
